@@ -180,6 +180,10 @@ def cls_catsig(ic, tier):
           SL(CAT(A, B), max(wa - 1, 0), wa + 1), BIT(CAT(A, B), wa), SL(REP(A, 2), 1, wa + 1) if wa > 1 else BIT(REP(A, 2), 1),
           s2, BIT(A, wa - 1), BIT(B, 0), OP("==", REP(BIT(A, 0), 3), CAT(Cc, K(0, (1, False)))), OP("m", C0, CAT(A, B), REP(Cc, 2)),
           OP(">>>", CAT(A, B), K(1)), OP("<<<", CAT(A, B), Cc), OP("&", CAT(A, B), REP(Cc, 3))]
+    # degenerate forms: a one-fold replication and a one-member concatenation are still unsigned, self-determined values (a printer that
+    # drops the braces hands the bare - possibly signed - operand to the context)
+    ex += [REP(A, 1), OP("~", REP(A, 1)), OP("m", C0, REP(A, 1), REP(B, 1)), OP("+", REP(A, 1), B), CAT(A), OP("~", CAT(A)), OP("-", CAT(B)),
+           OP("m", C0, CAT(A), CAT(B))]
     if wa >= 3:
         ex += [SL(SL(A, 1, 3), 0, 1), BIT(SL(A, 0, 2), 1), SL(SL(CAT(A, B), 1, 5), 1, 3)]
     return comb_frags(ex, tier)
